@@ -164,13 +164,14 @@ mod dtrait {
         {
             body(&self, "dflt16", a)
         }
-        fn p_rc(self: Rc<Self>, a: u8) -> Val {
+        // (p_rc, p_arc and p_pin spell their receiver types with full paths, the pairs below with imported names)
+        fn p_rc(self: std::rc::Rc<Self>, a: u8) -> Val {
             body(&*self, "dflt17", a)
         }
-        fn p_arc(self: Arc<Self>, a: u8) -> Val {
+        fn p_arc(self: std::sync::Arc<Self>, a: u8) -> Val {
             body(&*self, "dflt18", a)
         }
-        fn p_pin(self: Pin<&mut Self>, a: u8) -> Val {
+        fn p_pin(self: core::pin::Pin<&mut Self>, a: u8) -> Val {
             body(&*self, "dflt19", a)
         }
         fn m_mut(&mut self, a: u8) -> Val;
